@@ -1,7 +1,11 @@
 //verif:pkg ds/stack
 package stack
 
-import "verifrt"
+import (
+	"sync"
+
+	"verifrt"
+)
 
 // Property C12 (Stack): LIFO, both flavours.
 
@@ -36,5 +40,74 @@ func H_C12_stack() {
 			verifrt.Cover("clear")
 		}
 		verifrt.Assert(s.Size() == len(abs) && s.IsEmpty() == (len(abs) == 0), "Stack: Size/IsEmpty differ from the LIFO model")
+	}
+}
+
+// H_C12_stack_conc: the thread-safe stack under two concurrent calls (Pop/Pop, Pop/Push, Pop/Peek, Push/Push,
+// Pop/Clear) on a stack of two symbolic elements: the outcome equals one of the two serial orders (every pushed
+// element is popped at most once; LIFO among what is left), all schedules with a bounded number of pre-emptions.
+//
+//verif:h prop=C12 preempt=2/3 cover=pop-pop,pop-push,pop-peek,push-push,pop-clear
+func H_C12_stack_conc() {
+	s := New[uint8](true)
+	a, b := verifrt.U8("a"), verifrt.U8("b")
+	s.Push(a)
+	s.Push(b)
+	mode := verifrt.Choose("mode", 5)
+	c := verifrt.U8("c")
+	var v [2]uint8
+	var ok [2]bool
+	var wg sync.WaitGroup
+	wg.Add(2)
+	go func() {
+		defer wg.Done()
+		verifrt.MustFinish()
+		if mode == 3 {
+			s.Push(a)
+		} else {
+			v[0], ok[0] = s.Pop()
+		}
+	}()
+	go func() {
+		defer wg.Done()
+		verifrt.MustFinish()
+		switch mode {
+		case 0:
+			v[1], ok[1] = s.Pop()
+		case 1, 3:
+			s.Push(c)
+		case 2:
+			v[1], ok[1] = s.Peek()
+		case 4:
+			s.Clear()
+		}
+	}()
+	verifrt.MustFinish()
+	wg.Wait()
+	switch mode {
+	case 0:
+		verifrt.Cover("pop-pop")
+		verifrt.Assert(ok[0] && ok[1] && ((v[0] == b && v[1] == a) || (v[0] == a && v[1] == b)), "Stack: two concurrent Pops did not return the two elements once each")
+		verifrt.Assert(s.Size() == 0, "Stack: Size/IsEmpty differ from the LIFO model")
+	case 1:
+		verifrt.Cover("pop-push")
+		// Pop first: returns b, stack a,c; Push first: Pop returns c, stack a,b
+		verifrt.Assert(ok[0] && s.Size() == 2, "Stack: Size/IsEmpty differ from the LIFO model")
+		top, _ := s.Pop()
+		verifrt.Assert((v[0] == b && top == c) || (v[0] == c && top == b), "Stack.Pop did not return the most recently pushed element")
+		bottom, _ := s.Pop()
+		verifrt.Assert(bottom == a, "Stack.Pop did not return the most recently pushed element")
+	case 2:
+		verifrt.Cover("pop-peek")
+		verifrt.Assert(ok[0] && v[0] == b && ok[1] && (v[1] == b || v[1] == a) && s.Size() == 1, "Stack.Peek differs from the LIFO model")
+	case 3:
+		verifrt.Cover("push-push")
+		verifrt.Assert(s.Size() == 4, "Stack: Size/IsEmpty differ from the LIFO model")
+		x, _ := s.Pop()
+		y, _ := s.Pop()
+		verifrt.Assert((x == a && y == c) || (x == c && y == a), "Stack: two concurrent Pushes were not both stored")
+	case 4:
+		verifrt.Cover("pop-clear")
+		verifrt.Assert(s.Size() == 0 && (!ok[0] || v[0] == b), "Stack: Size/IsEmpty differ from the LIFO model")
 	}
 }
